@@ -49,9 +49,34 @@ class LayoutFold:
         self.allow_final_fill = allow_final_fill
         self.head_fill = {}
         self.samples = []
+        self.pad = None
+        self.pad_node = None
+
+    def flush_pad(self, node=None):
+        """consecutive 0x40 bytes (possibly from several writes) are judged together"""
+        if self.pad is None:
+            return
+        ln, node = self.pad, self.pad_node
+        self.pad = None
+        st = self.store
+        if self.allow_final_fill:
+            self.fails += need_eq0(st, self.fill + ln - BLOCK,
+                                   f'fill+trailer of {st.canon(ln)} bytes does not complete the block '
+                                   f'(fill={st.canon(self.fill)})', node)
+        else:
+            self.fails += need_eq0(st, self.fill - PAYLOAD,
+                                   f'trailer emitted when the block holds {st.canon(self.fill)} payload bytes, '
+                                   f'not {PAYLOAD}', node)
+            self.fails += need_eq0(st, ln - TRAILER, f'trailer is {st.canon(ln)} bytes, not {TRAILER}', node)
+        self.fill = Lin.const(0)
 
     def seg(self, seg, node):
         st = self.store
+        if is_pad_seg(seg):
+            self.pad = (self.pad if self.pad is not None else Lin.const(0)) + seg.length()
+            self.pad_node = node
+            return
+        self.flush_pad()
         if isinstance(seg, Sl) and seg.src is self.src:
             self.fails += need_eq0(st, seg.lo - self.cursor,
                                    f'data bytes emitted out of sequence: slice starts at {st.canon(seg.lo)} but '
@@ -61,18 +86,6 @@ class LayoutFold:
             self.fails += need_ge0(st, Lin.const(PAYLOAD) - self.fill,
                                    f'payload of a block may exceed {PAYLOAD} bytes before its trailer '
                                    f'(fill={st.canon(self.fill)})', node)
-        elif is_pad_seg(seg):
-            ln = seg.length()
-            if self.allow_final_fill:
-                self.fails += need_eq0(st, self.fill + ln - BLOCK,
-                                       f'fill+trailer of {st.canon(ln)} bytes does not complete the block '
-                                       f'(fill={st.canon(self.fill)})', node)
-            else:
-                self.fails += need_eq0(st, self.fill - PAYLOAD,
-                                       f'trailer emitted when the block holds {st.canon(self.fill)} payload bytes, '
-                                       f'not {PAYLOAD}', node)
-                self.fails += need_eq0(st, ln - TRAILER, f'trailer is {st.canon(ln)} bytes, not {TRAILER}', node)
-            self.fill = Lin.const(0)
         else:
             self.fails.append(definite(f'bytes written that are neither input data nor 0x40 padding: {seg!r}', node))
 
@@ -87,6 +100,7 @@ class LayoutFold:
             for g in data.segs:
                 self.seg(g, e.node)
         elif e.kind == 'loop-head':
+            self.flush_pad()
             var = self._suffix_var(e.data['gen'])
             if var is None:
                 # no pending-data variable generalised: loop cannot consume data, or it was widened away
@@ -105,6 +119,7 @@ class LayoutFold:
                 self.fails.append(soft(f'fill at loop head is not a constant ({cf})', e.node))
             self.head_fill[id(e.node)] = cf
         elif e.kind == 'loop-back':
+            self.flush_pad()
             var = self._suffix_var(e.data['gen'])
             if var is None:
                 return
@@ -178,6 +193,7 @@ def check(prog, res, tier):
         lf = LayoutFold(p, src, Lin.const(PAYLOAD) - u['r'].lin, u['file'])
         for e in p.events:
             lf.event(e)
+        lf.flush_pad()
         return lf, u
 
     def chk_a(p, mode):
@@ -244,6 +260,7 @@ def check(prog, res, tier):
                 elif e.kind in ('seek', 'close') and e.data['file'] is u['file']:
                     order.append(e.kind)
                 lf.event(e)
+            lf.flush_pad()
             fails = list(lf.fails)
             if n_w == 0:
                 fails.append(definite(f'{name}() emits no fill/trailer bytes'))
